@@ -856,6 +856,38 @@ func (P *Program) registerVHDB() {
 	P.reg(VHDB+".HeaderRows", rows("headers"))
 	P.reg(VHDB+".TokenRows", rows("tokens"))
 	P.reg(VHDB+".WebhookRows", rows("webhooks"))
+	P.reg(VHDB+".FailCommit", func(fr *frame, args []value) value {
+		st := hDB(args[0])
+		st.failAt = st.commits + fr.in.mustInt(args[1], "fault position")
+		return nil
+	})
+	P.reg(VHDB+".KillAfterCommit", func(fr *frame, args []value) value {
+		st := hDB(args[0])
+		st.killAt = st.commits + fr.in.mustInt(args[1], "kill position")
+		return nil
+	})
+	P.reg(VHDB+".Reopen", func(fr *frame, args []value) value {
+		st := hDB(args[0])
+		st.failAt, st.killAt = 0, 0
+		return args[0]
+	})
+	P.reg(VHDB+".RunUntilKill", func(fr *frame, args []value) value {
+		in := fr.in
+		killed := false
+		func() {
+			defer func() {
+				if r := recover(); r != nil {
+					if _, ok := r.(killSignal); ok {
+						killed = true
+						return
+					}
+					panic(r)
+				}
+			}()
+			in.call(fr, 0, args[0], nil)
+		}()
+		return in.boolv(killed)
+	})
 	P.reg(VHDB+".WriteCount", func(fr *frame, args []value) value { return fr.in.intv(int64(hDB(args[0]).commits)) })
 }
 
